@@ -22,8 +22,16 @@ fn pair() -> (TcpStream, TcpStream) {
     (a, b)
 }
 
-fn cmd(i: usize) -> Command { Command::DeleteFile { path: rrp(&format!("{}{}", i, "p".repeat(i % 7 * 3))) } }
-fn resp(i: usize) -> Response { Response::Error(format!("{}{}", i, "r".repeat(i % 5 * 4))) }
+// `big:<b|d>:<index>:<bytes>`: message <index> of that direction carries a text of <bytes> bytes (a message beyond the frame buffer)
+static BIG: std::sync::Mutex<Vec<(u8, usize, usize)>> = std::sync::Mutex::new(Vec::new());
+fn big_len(dir: u8, i: usize) -> Option<usize> { BIG.lock().unwrap().iter().find(|x| x.0 == dir && x.1 == i).map(|x| x.2) }
+fn cmd(i: usize) -> Command {
+    match big_len(b'b', i) {
+        Some(n) => Command::SetRoot { root: format!("{}{}", i, "p".repeat(n)) },
+        None => Command::DeleteFile { path: rrp(&format!("{}{}", i, "p".repeat(i % 7 * 3))) },
+    }
+}
+fn resp(i: usize) -> Response { Response::Error(format!("{}{}", i, "r".repeat(big_len(b'd', i).unwrap_or(i % 5 * 4)))) }
 fn idx_of(s: &str) -> String { s.chars().take_while(|c| c.is_ascii_digit()).collect() }
 
 fn read_frames(s: &mut TcpStream, n: usize) -> Vec<Vec<u8>> {
@@ -92,7 +100,14 @@ pub fn run(toks: &[&str]) -> Option<String> {
     // (a stall in the middle of a frame, after a frame, ...)
     let mut cuts: [Vec<usize>; 2] = [vec![], vec![]];
     let mut pauses: [std::collections::HashMap<usize, u64>; 2] = [Default::default(), Default::default()];
+    BIG.lock().unwrap().clear();
     while let Some(tok) = t.tok() {
+        if let Some(l) = tok.strip_prefix("big:") {
+            let mut it = l.split(':');
+            let dir = it.next()?.bytes().next()?; let idx: usize = it.next()?.parse().ok()?; let n: usize = it.next()?.parse().ok()?;
+            BIG.lock().unwrap().push((dir, idx, n));
+            continue;
+        }
         if let Some(l) = tok.strip_prefix("pd:").map(|l| (0, l)).or(tok.strip_prefix("pb:").map(|l| (1, l))) {
             let mut it = l.1.split(':');
             let off: usize = it.next()?.parse().ok()?; let ms: u64 = it.next()?.parse().ok()?;
@@ -112,8 +127,13 @@ pub fn run(toks: &[&str]) -> Option<String> {
     let doer: AsyncEncryptedComms<Response, Command> = AsyncEncryptedComms::new(doer_end, key, 1, 0, ("doer", "boss"));
     for i in 0..nb { let _ = boss.sender.send(cmd(i)); }
     for i in 0..nd { let _ = doer.sender.send(resp(i)); }
+    // (the harness's own ends of the two sockets: a sending thread that died on a message - e.g. one beyond its frame buffer - leaves its
+    // socket open, so the wait for its frames is bounded)
+    let has_big = !BIG.lock().unwrap().is_empty();
+    if has_big { net_b.set_read_timeout(Some(std::time::Duration::from_millis(1500))).ok(); net_d.set_read_timeout(Some(std::time::Duration::from_millis(1500))).ok(); }
     let fb = read_frames(&mut net_b, nb);
     let fd = read_frames(&mut net_d, nd);
+    net_b.set_read_timeout(None).ok(); net_d.set_read_timeout(None).ok();
     if fb.len() != nb || fd.len() != nd { return Some("send-failed".to_string()); }
 
     // nonce reuse is visible on the wire: equal key streams <=> c_i ^ c_j == p_i ^ p_j
@@ -154,7 +174,7 @@ pub fn run(toks: &[&str]) -> Option<String> {
 
     let mut got_d = vec![];
     while let Ok(c) = doer.receiver.recv() {
-        got_d.push(match c { Command::DeleteFile { path } => idx_of(&rrp_str(&path)), other => format!("?{:?}", other) });
+        got_d.push(match c { Command::DeleteFile { path } => idx_of(&rrp_str(&path)), Command::SetRoot { root } => idx_of(&root), other => format!("?{:?}", other) });
     }
     let mut got_b = vec![];
     while let Ok(r) = boss.receiver.recv() {
